@@ -5,6 +5,7 @@ import (
 	"go/constant"
 	"go/token"
 	"go/types"
+	"sort"
 	"strings"
 
 	"golang.org/x/tools/go/ssa"
@@ -377,6 +378,7 @@ func checkC14(p *Program, r *Report) {
 			}
 		}
 		r.Add("C14.content", "builder.(*GCSBuilder)", "entries are de-duplicated through a map keyed by the entry bytes", content.Pos(), okMap, "data[string(entry)] = struct{}{}")
+		c14builderOwnsEntries(p, r)
 	}
 	r.Floor("C14.content", 4)
 	c14mulhi(p, r)
@@ -988,4 +990,200 @@ func c14dataIsWriterBytes(p *Program, r *Report) {
 		r.Unresolved("C14.data", "store of the filter data in gcs.BuildGCSFilter")
 	}
 	r.Floor("C14.data", 1)
+}
+
+// c14builderOwnsEntries (round 5).  C14.own (C14-agent5-m1): what the builder keeps of an entry is its own copy — a map
+// value (or field) that aliases the caller's slice changes when the caller reuses its buffer, and the block-filter
+// function serialises every outpoint of a transaction into one buffer.  C14.dedupe (C14-agent5-m3): every element of the
+// list handed to gcs.BuildGCSFilter comes out of a range over the builder's de-duplicating map; a second, list-valued
+// path lets a repeated entry in twice, which changes N, the modulus and every byte of the filter.
+func c14builderOwnsEntries(p *Program, r *Report) {
+	ef := NewEffects(p)
+	nOwn, nDed := 0, 0
+	for _, m := range p.Methods("gcs/builder", "GCSBuilder") {
+		if len(m.Params) == 0 {
+			continue
+		}
+		recv := ssa.Value(m.Params[0])
+		fromCaller := func(v ssa.Value) []string {
+			var out []string
+			for rt := range ef.Src(v) {
+				if rt.Kind == rkParam && rt.Idx >= 1 {
+					out = append(out, rt.String())
+				}
+			}
+			sort.Strings(out)
+			return out
+		}
+		for _, b := range m.Blocks {
+			for _, in := range b.Instrs {
+				switch x := in.(type) {
+				case *ssa.MapUpdate:
+					rooted := false
+					for rt := range ef.Src(x.Map) {
+						if rt.Kind == rkParam && rt.Idx == 0 {
+							rooted = true
+						}
+					}
+					if !rooted {
+						continue
+					}
+					nOwn++
+					bad := []string{}
+					if pointerLike(x.Value.Type()) {
+						bad = fromCaller(x.Value)
+					}
+					r.Add("C14.own", FnName(m), "what the builder's set keeps of an entry is its own copy", x.Pos(), len(bad) == 0, "stored value aliases "+strings.Join(bad, ", "))
+				case *ssa.Call:
+					if !isBuiltin(&x.Call, "append") || len(x.Call.Args) != 2 {
+						continue
+					}
+					// append(<receiver's list>, caller's slices…)
+					rooted := false
+					for rt := range ef.Src(x.Call.Args[0]) {
+						if rt.Kind == rkParam && rt.Idx == 0 {
+							rooted = true
+						}
+					}
+					if !rooted {
+						continue
+					}
+					et, ok := x.Call.Args[0].Type().Underlying().(*types.Slice)
+					if !ok || !pointerLike(et.Elem()) {
+						continue
+					}
+					nOwn++
+					var bad []string
+					for _, ev := range appendedElems(x.Call.Args[1]) {
+						bad = append(bad, fromCaller(ev)...)
+					}
+					r.Add("C14.own", FnName(m), "what the builder's lists keep of an entry is its own copy", x.Pos(), len(bad) == 0, "appended element aliases "+strings.Join(dedup(bad), ", "))
+				}
+			}
+		}
+		// the list handed to the filter constructor
+		for _, b := range m.Blocks {
+			for _, in := range b.Instrs {
+				c, ok := in.(*ssa.Call)
+				if !ok || c.Call.StaticCallee() == nil || c.Call.StaticCallee().Pkg == nil || c.Call.StaticCallee().Pkg.Pkg.Path() != ModPath+"/gcs" {
+					continue
+				}
+				var list ssa.Value
+				for _, a := range c.Call.Args {
+					if sl, ok := a.Type().Underlying().(*types.Slice); ok {
+						if _, ok := sl.Elem().Underlying().(*types.Slice); ok {
+							list = a
+						}
+					}
+				}
+				if list == nil {
+					continue
+				}
+				nDed++
+				var foreign []string
+				seen := map[ssa.Value]bool{}
+				var walk func(v ssa.Value)
+				walk = func(v ssa.Value) {
+					if seen[v] {
+						return
+					}
+					seen[v] = true
+					switch x := v.(type) {
+					case *ssa.Phi:
+						for _, e := range x.Edges {
+							walk(e)
+						}
+					case *ssa.MakeSlice:
+					case *ssa.Slice:
+						walk(x.X)
+					case *ssa.Call:
+						if isBuiltin(&x.Call, "append") && len(x.Call.Args) == 2 {
+							walk(x.Call.Args[0])
+							elems := appendedElems(x.Call.Args[1])
+							if elems == nil {
+								foreign = append(foreign, "whole list "+exprString(x.Call.Args[1])+" appended at "+p.Pos(x.Pos()))
+							}
+							for _, ev := range elems {
+								if !fromMapRange(ev, recv) {
+									foreign = append(foreign, exprString(ev)+" at "+p.Pos(x.Pos()))
+								}
+							}
+							return
+						}
+						foreign = append(foreign, exprString(v))
+					default:
+						if k, ok := v.(*ssa.Const); ok && k.Value == nil {
+							return
+						}
+						foreign = append(foreign, exprString(v))
+					}
+				}
+				walk(list)
+				sort.Strings(foreign)
+				r.Add("C14.dedupe", FnName(m), "every entry handed to the filter constructor comes out of the de-duplicating set", c.Pos(), len(foreign) == 0,
+					"elements not taken from a range over the builder's map: "+strings.Join(dedup(foreign), "; "))
+			}
+		}
+	}
+	if nDed == 0 {
+		r.Unresolved("C14.dedupe", "call of the gcs filter constructor with the builder's entry list")
+	}
+	_ = nOwn
+	r.Floor("C14.own", 1)
+	r.Floor("C14.dedupe", 1)
+}
+
+// appendedElems: the element values of the variadic pack `append(s, e1, e2)`; nil when the second argument is a slice
+// value of its own (`append(s, t...)`).
+func appendedElems(arg ssa.Value) []ssa.Value {
+	sl, ok := arg.(*ssa.Slice)
+	if !ok {
+		return nil
+	}
+	al, ok := sl.X.(*ssa.Alloc)
+	if !ok {
+		return nil
+	}
+	var out []ssa.Value
+	for _, ref := range *al.Referrers() {
+		ia, ok := ref.(*ssa.IndexAddr)
+		if !ok {
+			continue
+		}
+		for _, r2 := range *ia.Referrers() {
+			if st, ok := r2.(*ssa.Store); ok && st.Addr == ssa.Value(ia) {
+				out = append(out, st.Val)
+			}
+		}
+	}
+	return out
+}
+
+// fromMapRange: v is a key (or value) produced by ranging over a map loaded from a field of recv, possibly converted.
+func fromMapRange(v ssa.Value, recv ssa.Value) bool {
+	for d := 0; d < 8; d++ {
+		switch x := v.(type) {
+		case *ssa.Convert:
+			v = x.X
+		case *ssa.ChangeType:
+			v = x.X
+		case *ssa.Extract:
+			nx, ok := x.Tuple.(*ssa.Next)
+			if !ok {
+				return false
+			}
+			rg, ok := nx.Iter.(*ssa.Range)
+			if !ok {
+				return false
+			}
+			if _, isMap := rg.X.Type().Underlying().(*types.Map); !isMap {
+				return false
+			}
+			_, base, ok := fieldLoad(rg.X)
+			return ok && base == recv
+		default:
+			return false
+		}
+	}
+	return false
 }
